@@ -31,6 +31,7 @@ def gen_ops(tier, rng):
 def segs_for(r):
     return 64 if r <= 1 else 32 if r <= 3 else 8 if r <= 8 else 4
 
+@common.guarded(lambda **a: f"lonlat_to_cell({a['p']}, {a['r']}) (containment / periodicity check)", lambda **a: {'p': list(a['p']), 'r': a['r']})
 def check_point(drv, p, r, fails, expect_cell=None):
     a5 = drv.a5
     tag = f'lonlat_to_cell({p}, {r})'
